@@ -232,7 +232,7 @@ def eigs(f, v0, k=1, which='SR', ncv=10, maxiter=None, tol=1e-13, hermitian=Fals
 
     val, vr = val[ind], vr[:, ind]
     Y = []
-    for it in range(k):
+    for it in range(min(k, m)):  # happy breakdown may leave a Krylov space smaller than k
         sit = vr[:, it]
         Y.append(V[0].add(*V[1:], amplitudes=sit, **kwargs))
     return val[:k], Y
